@@ -311,7 +311,9 @@ func runC04(c *Ctx) {
 		cutI := SinkCall(P.FuncObj("logger.Panicf"))
 		if cpHelper != nil {
 			panicf := cutI
-			cutI = func(in ssa.Instruction) bool { return panicf(in) || in == ssa.Instruction(cpHelperCall.(ssa.Instruction)) }
+			cutI = func(in ssa.Instruction) bool {
+				return panicf(in) || in == ssa.Instruction(cpHelperCall.(ssa.Instruction))
+			}
 		}
 		q := ReachQ{Fn: unlock, Sink: SinkIs(ret), CutEdge: AtomEdges(notDirty, noBackend, okCP), CutInstr: cutI}
 		r := q.Run()
